@@ -52,6 +52,7 @@ CHURN_CODES = list(range(32602, 32660)) + list(range(32701, 32755))
 CUSTOM = {
     "laea": "+proj=laea +lat_0=10 +lon_0=20 +x_0=0 +y_0=0 +datum=WGS84 +units=m +no_defs +type=crs",
     "tmerc": "+proj=tmerc +lat_0=0 +lon_0=33 +k=0.9996 +x_0=500000 +y_0=0 +datum=WGS84 +units=m +no_defs +type=crs",
+    "compound": "EPSG:4326+5773",  # horizontal + vertical, spelled with EPSG codes
 }
 PROJ4 = {  # lossy spellings: no equality with the EPSG-built CRS is expected, the laws still apply
     4326: "+proj=longlat +datum=WGS84 +no_defs",
@@ -61,7 +62,7 @@ PROJ4 = {  # lossy spellings: no equality with the EPSG-built CRS is expected, t
     4283: "+proj=longlat +ellps=GRS80 +no_defs",
 }
 ROUTES = ["int", "EPSG", "epsg", "Epsg", "EPSG0", "wkt2019", "wkt2018", "json", "pyproj_epsg", "pyproj_wkt", "pyproj_json", "copy", "pickle"]
-CUSTOM_ROUTES = ["wkt2019", "wkt2018", "json", "pyproj_wkt", "pyproj_json", "copy", "pickle"]
+CUSTOM_ROUTES = ["wkt2019", "wkt2018", "json", "pyproj_wkt", "pyproj_json", "copy", "pickle", "user", "pyproj_user"]
 
 REF: Dict[str, Any] = {}  # built in the parent, inherited through fork (plain pyproj, no odc.geo.CRS)
 BASELINE: Dict[Tuple[Any, str], Any] = {}
@@ -278,6 +279,10 @@ def build_crs(code: Any, route: str) -> Any:
     sp = REF["specs"][code]
     if route == "proj4":
         return CRS(PROJ4[int(code)])
+    if route == "user":
+        return CRS(CUSTOM[code])  # the definition exactly as a user would type it
+    if route == "pyproj_user":
+        return CRS(pyproj.CRS.from_user_input(CUSTOM[code]))
     if route == "int":
         return CRS(int(code))
     if route == "EPSG":
@@ -1102,7 +1107,12 @@ def _in_fork(fn, *a):
 def _baseline_child(spec: Tuple[Any, str]):
     from dask.base import tokenize
 
-    c = build_crs(spec[0], spec[1])
+    try:
+        c = build_crs(spec[0], spec[1])
+    except Exception as e:  # pylint: disable=broad-except
+        if classify_exception(e)[0] != "repo":
+            raise
+        return None  # no pristine reference; the history itself meets and reports the exception
     return (str(c), tokenize(c), hash(c))
 
 
